@@ -368,6 +368,7 @@ type zzC05Reply struct {
 func zzC05Query(c *dns.Client, conn *dns.Conn, name string, qt uint16) (rep zzC05Reply) {
 	m := (&dns.Msg{}).SetQuestion(dns.Fqdn(name), qt)
 	m.Id = dns.Id()
+	m.SetEdns0(4096, false)
 	// Names on the access blocked-hosts list are dropped without a reply over
 	// UDP by design; do not wait long for them and do not count the silence as
 	// a stall.
@@ -760,7 +761,11 @@ func zzC05RunFamily(
 				src = fmt.Sprintf("127.0.10.%d", 150+g%3)
 			}
 
-			c := &dns.Client{Net: netw, Timeout: 8 * time.Second}
+			// Like real stub resolvers, the clients advertise a 4096-octet
+			// UDP buffer (EDNS0): the families pile up dozens of duplicate
+			// rewrite entries, and an answer beyond 512 octets read through a
+			// 512-octet buffer would look malformed although it is not.
+			c := &dns.Client{Net: netw, Timeout: 8 * time.Second, UDPSize: 4096}
 			var laddr net.Addr
 			if netw == "udp" {
 				laddr = &net.UDPAddr{IP: net.ParseIP(src)}
@@ -821,9 +826,23 @@ func zzC05RunFamily(
 					consecutiveTimeouts = 0
 					_ = conn.Close()
 					conn = nil
+					// A UDP client without EDNS reads at most 512 octets: an
+					// answer that is larger must come with the TC bit.  Ask
+					// again over TCP to tell a cut datagram from a reply that
+					// is malformed in itself.
+					detail := ""
+					if netw == "udp" {
+						tc := &dns.Client{Net: "tcp", Timeout: 8 * time.Second}
+						if tr, _, terr := tc.Exchange((&dns.Msg{}).SetQuestion(dns.Fqdn(name), qt), sys.dnsAddr); terr == nil {
+							detail = fmt.Sprintf(" [the same question over TCP: rcode %d, %d answers, %d octets]", tr.Rcode, len(tr.Answer), tr.Len())
+						} else {
+							detail = " [the same question over TCP: " + terr.Error() + "]"
+						}
+					}
+
 					mu.Lock()
 					if len(res.Malformed) < 20 {
-						res.Malformed = append(res.Malformed, fmt.Sprintf("%s %s/%d: %s", netw, name, qt, rep.Err))
+						res.Malformed = append(res.Malformed, fmt.Sprintf("%s %s/%d: %s%s", netw, name, qt, rep.Err, detail))
 					}
 					mu.Unlock()
 				default:
@@ -1263,8 +1282,22 @@ func TestZZVerifC05Gated(t *testing.T) {
 			}
 		}
 
+		for try := 0; try < 300 && !blocked; try++ {
+			// The engine is rebuilt asynchronously: be patient on a loaded
+			// machine before concluding anything.
+			time.Sleep(50 * time.Millisecond)
+			c := &dns.Client{Net: "udp", Timeout: 2 * time.Second}
+			r, _, err := c.Exchange((&dns.Msg{}).SetQuestion(dns.Fqdn(probe), dns.TypeA), sys.dnsAddr)
+			blocked = err == nil && len(r.Answer) == 1 && strings.Contains(r.Answer[0].String(), "0.0.0.0")
+		}
+
 		if !blocked && len(res.Bad) == 0 {
-			res.Bad = append(res.Bad, "list state corrupted: after disable-while-refreshing and enable, the enabled list extra0 is not in force ("+probe+" is not blocked after 5s)")
+			_, st := zzC05API(http.MethodGet, "/control/filtering/status", nil)
+			if len(st) > 1500 {
+				st = st[:1500]
+			}
+
+			res.Bad = append(res.Bad, "list state corrupted: after disable-while-refreshing and enable, the enabled list extra0 is not in force ("+probe+" is not blocked after 20s); filtering status: "+st)
 		}
 
 		res.Replies = append(res.Replies, fmt.Sprintf("%s:blocked=%v:opReturnedWhileParked=%v", probe, blocked, opReturned))
